@@ -260,7 +260,7 @@ func judgedProject(c Case) *ev.Verdict {
 
 func TestPropProjects(t *testing.T) {
 	registerAll()
-	ev.Rapid(t, "projects", ev.N(2500, 25000), genProjectCase, judgedProject)
+	ev.Rapid(t, "projects", ev.N(6000, 25000), genProjectCase, judgedProject)
 }
 
 // ---- random token strings beyond the enumeration bound
@@ -278,7 +278,7 @@ func judgedRandom(c Case) *ev.Verdict {
 
 func TestPropRandomTokens(t *testing.T) {
 	registerAll()
-	ev.Rapid(t, "random", ev.N(1500, 20000), func(t *rapid.T) Case {
+	ev.Rapid(t, "random", ev.N(4000, 20000), func(t *rapid.T) Case {
 		toks := rapid.SliceOfN(rapid.SampledFrom(schemaTokens), 3, 40).Draw(t, "tokens")
 		return Case{Entry: "all", Text: strings.Join(toks, "")}
 	}, judgedRandom)
